@@ -10,10 +10,12 @@ import (
 	"fmt"
 	"io/ioutil"
 	"net/http"
+	"net/url"
 	"os"
 	"os/exec"
 	"sort"
 	"strings"
+	"sync"
 	"time"
 
 	"github.com/go-fed/activity/pub"
@@ -90,6 +92,22 @@ func (c *recClient) Do(req *http.Request) (*http.Response, error) {
 	}
 	return &http.Response{StatusCode: st, Status: fmt.Sprintf("%d %s", st, http.StatusText(st)), Body: ioutil.NopCloser(bytes.NewReader(c.body)), Header: http.Header{}}, nil
 }
+
+// funcSigner / funcClient delegate to closures (used by the free-running batch cases).
+type funcSigner struct{ f func(r *http.Request) error }
+
+func (s *funcSigner) SignRequest(pKey crypto.PrivateKey, pubKeyId string, r *http.Request, body []byte) error {
+	return s.f(r)
+}
+func (s *funcSigner) SignResponse(crypto.PrivateKey, string, http.ResponseWriter, []byte) error {
+	return nil
+}
+
+type funcClient struct {
+	f func(r *http.Request) (*http.Response, error)
+}
+
+func (c *funcClient) Do(r *http.Request) (*http.Response, error) { return c.f(r) }
 
 type fixedClock struct{ t time.Time }
 
@@ -307,6 +325,107 @@ func C19(tier string) int {
 		if err == nil || len(cl2.reqs) != 0 {
 			res.Violate("status|unsigned-request-sent|"+op, fmt.Sprintf("%s after a signer error: err=%v, client calls=%d", op, err, len(cl2.reqs)), M{"check": "C19", "op": op})
 		}
+	}
+	// ---- (2b) batches, free-running with the unmodified transport: every per-recipient outcome
+	// combination for n = 0..3 (one duplicate variant); attempt counts, "error iff a failure" and
+	// "names each failure" do not depend on the schedule and are judged here on whatever schedule
+	// the runtime produces (the schedule-dependent clauses are part (3)'s) ----
+	type bOut struct {
+		name   string
+		status int
+		cerr   bool
+		serr   bool
+	}
+	bouts := []bOut{{"200", 200, false, false}, {"202", 202, false, false}, {"404", 404, false, false}, {"500", 500, false, false}, {"client-error", 0, true, false}, {"signer-error", 0, false, true}}
+	burls := []string{"https://r1.example/in", "https://r2.example/in", "https://r3.example/in"}
+	var genB func(n int, cur []int)
+	genB = func(n int, cur []int) {
+		if len(cur) < n {
+			for i := range bouts {
+				genB(n, append(cur, i))
+			}
+			return
+		}
+		for _, dup := range []bool{false, true} {
+			if dup && n < 2 {
+				continue
+			}
+			rec := append([]string(nil), burls[:n]...)
+			if dup {
+				rec[n-1] = rec[0]
+			}
+			plan := map[string][]bOut{}
+			nFail := 0
+			var names []string
+			for i, u := range rec {
+				plan[u] = append(plan[u], bouts[cur[i]])
+				names = append(names, bouts[cur[i]].name)
+				o := bouts[cur[i]]
+				if o.cerr || o.serr || !(o.status == 200 || o.status == 201 || o.status == 202) {
+					nFail++
+				}
+			}
+			var mu sync.Mutex
+			signs, dos := map[string]int{}, map[string]int{}
+			sg := &funcSigner{f: func(r *http.Request) error {
+				mu.Lock()
+				defer mu.Unlock()
+				u := r.URL.String()
+				k := signs[u]
+				signs[u]++
+				if k < len(plan[u]) && plan[u][k].serr {
+					return fmt.Errorf("signer-failure-token-%d", k)
+				}
+				return nil
+			}}
+			cl := &funcClient{f: func(r *http.Request) (*http.Response, error) {
+				mu.Lock()
+				defer mu.Unlock()
+				u := r.URL.String()
+				k := dos[u]
+				for k < len(plan[u]) && plan[u][k].serr {
+					k++
+				}
+				dos[u] = k + 1
+				o := bouts[0]
+				if k < len(plan[u]) {
+					o = plan[u][k]
+				}
+				if o.cerr {
+					return nil, fmt.Errorf("client-failure-token-%d", k)
+				}
+				return &http.Response{StatusCode: o.status, Status: fmt.Sprint(o.status), Body: ioutil.NopCloser(bytes.NewReader(nil))}, nil
+			}}
+			tp := pub.NewHttpSigTransport(cl, "app", fixedClock{now}, sg, sg, "k", rsaKey)
+			var rs []*url.URL
+			for _, u := range rec {
+				rs = append(rs, ap.U(u))
+			}
+			err := tp.BatchDeliver(context.Background(), []byte("payload"), rs)
+			res.Case(fmt.Sprintf("batch|%d|%v|%v", n, dup, names))
+			rep := M{"check": "C19", "part": "batch-outcomes", "recipients": rec, "outcomes": names}
+			if (err != nil) != (nFail > 0) {
+				res.Violate("batch|error-iff-failure", fmt.Sprintf("recipients %v outcomes %v: BatchDeliver returned %v", rec, names, err), rep)
+			}
+			if err != nil {
+				got := strings.Count(err.Error(), "failure-token-") + strings.Count(err.Error(), "request to ")
+				if got != nFail {
+					res.Violate("batch|error-does-not-name-each-failure", fmt.Sprintf("recipients %v outcomes %v: %d attempts failed, the error names %d: %q", rec, names, nFail, got, err.Error()), rep)
+				}
+			}
+			want := map[string]int{}
+			for _, u := range rec {
+				want[u]++
+			}
+			for u, k := range want {
+				if signs[u] != k {
+					res.Violate("batch|attempt-count", fmt.Sprintf("recipients %v: %s was attempted %d times, it is listed %d times", rec, u, signs[u], k), rep)
+				}
+			}
+		}
+	}
+	for n := 0; n <= 3; n++ {
+		genB(n, nil)
 	}
 	nSeq := res.Evaluations
 
